@@ -10,7 +10,7 @@ Exit 0: property held on everything explored (KNOWN-FINDING lines may be printed
 Exit 1: "VIOLATION property=<id> replay=<path>" was printed.
 Exit 2: infrastructure trouble / inconclusive (build failure, timeout, worker death without a case).
 """
-import argparse, glob, hashlib, json, os, shutil, signal, struct, subprocess, sys, tempfile, time
+import argparse, glob, hashlib, json, os, re, shutil, signal, struct, subprocess, sys, tempfile, time
 
 VERIF = os.path.dirname(os.path.abspath(__file__))
 HARNESS = os.path.join(VERIF, "harness")
@@ -294,7 +294,6 @@ def main():
     results = run_children(cmds, timeout)
     fuzz_execs = 0
     for k in range(len(fuzz_specs)):
-        import re
         lg = open(os.path.join(scratch, "log-%d.txt" % (nsh + k)), errors="replace").read()
         m = re.findall(r"execs: (\d+)", lg)
         if m:
@@ -322,6 +321,16 @@ def main():
             doc["error"] = "the test process died while executing this case:\n" + log[-3000:]
             json.dump(doc, open(dst, "w"), indent=1)
             violations.append((dst, log))
+            continue
+        # the Go runtime ended the process for something the library did (these cannot be recovered and leave no
+        # journal when the check has no checkpoint): a verdict, with the log as the record of the failing run
+        m = re.search(r"fatal error: (concurrent map[^\n]*|all goroutines are asleep - deadlock!|sync: [^\n]*)", log)
+        if m and "github.com/tonkeeper/tongo" in log[m.start():]:
+            dst = os.path.join(rdir, "%s-fatal-s%d-%d.json" % (pid, seed, i))
+            at = m.start()
+            json.dump({"property": pid, "check": "(process)", "tape": [],
+                       "error": "the Go runtime stopped the test process: %s\n%s" % (m.group(0), log[at:at + 6000])}, open(dst, "w"), indent=1)
+            violations.append((dst, log[at:at + 3000]))
             continue
         infra.append("shard %d exited with %d and left no replay file:\n%s" % (i, rc, log[-4000:]))
 
